@@ -5,7 +5,7 @@
    is observed by the totality run of props/c05.py, not proved.
    valid_len len: 0 <= len <= isize::MAX (every Vec / String length). *)
 From Coq Require Import ZArith List Bool.
-From DV Require Import C05.Model C05.Proofs C05.Odometer C05.LrBounds Gen.LalrTables Gen.LalrTokens.
+From DV Require Import C05.Model C05.Proofs C05.Odometer C05.LrBounds C05.LrDriver Gen.LalrTables Gen.LalrTokens.
 Import ListNotations.
 Open Scope Z_scope.
 
@@ -75,7 +75,7 @@ Proof. exact sci_zero_count_ok. Qed.
         variable fastest), every pass is inside the domains, and equal numbers mean equal index vectors: each combination exactly once *)
 Theorem C05_odometer_terminates_and_enumerates : forall states, states <> [] -> Forall initial states ->
   forall fuel, (Z.to_nat (total states) <= fuel)%nat ->
-  exists visited, run fuel states [] = Finished visited /\
+  exists visited, Model.run fuel states [] = Finished visited /\
                   map rank visited = zseq 0 (Z.to_nat (total states)) /\
                   Forall (fun v => Forall wf v /\ same_shape v states) visited.
 Proof. exact odometer_terminates_and_enumerates. Qed.
@@ -90,13 +90,25 @@ Theorem C05_lr_tables_in_bounds :
   state_ok 0 = true /\ state_ok yy_final = true.
 Proof. exact lr_tables_in_bounds. Qed.
 
+(* ---- the driver loop itself (every table access checked, out of bounds = ROob): for EVERY sequence of tokens the lexer can return and
+        every number of steps the run never leaves a table — the stack only ever holds valid states (induction over the run on top of two
+        single-step sweeps).  Termination and the stack-depth invariant (RUnderflow) are not covered. *)
+Theorem C05_lr_driver_never_out_of_bounds : forall fuel ss toks, valid_stack ss -> Forall (fun c => In c all_token_values) toks ->
+  LrDriver.run fuel ss toks <> ROob.
+Proof. exact lr_driver_never_out_of_bounds. Qed.
+Theorem C05_lr_parse_never_out_of_bounds : forall fuel toks, Forall (fun c => In c all_token_values) toks -> LrDriver.run fuel [0] toks <> ROob.
+Proof. exact lr_parse_never_out_of_bounds. Qed.
+Example C05_lr_driver_examples :
+  LrDriver.run 200 [0] [tok_StartExpression; tok_Numeric; tok_Plus; tok_Numeric] = RAccept /\ LrDriver.run 200 [0] [tok_StartExpression; tok_Plus] = RError.
+Proof. exact lr_driver_examples. Qed.
+
 (* ---- non-vacuity *)
 Example C05_nonvacuous :
   valid_len 3 /\ sublist3 Debug 3 (Int (-2)) (Int 2) = Slice 1 3 /\ substring3 Release 3 (Int 2) (Int 1) = Slice 1 2 /\
   remove Debug 3 (Int (-1)) = Removed 2 /\ insert_before Release 3 (Int 3) = Inserted 2 /\ filter_index Debug 3 (Int (-3)) = Item 0 /\
   ym_parse Debug (Some 2) (Some 3) true = YmOk (-27) /\
   Forall initial [list_state 2; range_state 3 1] /\
-  visited_indexes (run 6 [list_state 2; range_state 3 1] []) = Some [[0; 3]; [1; 3]; [0; 2]; [1; 2]; [0; 1]; [1; 1]].
+  visited_indexes (Model.run 6 [list_state 2; range_state 3 1] []) = Some [[0; 3]; [1; 3]; [0; 2]; [1; 2]; [0; 1]; [1; 1]].
 Proof.
   split; [vm_compute; split; discriminate|].
   do 6 (split; [vm_compute; reflexivity|]).
@@ -158,3 +170,6 @@ Print Assumptions C05_sublist3_orig_refuted.
 Print Assumptions C05_substring3_orig_refuted.
 Print Assumptions C05_ym_parse_orig_refuted.
 Print Assumptions C05_odometer_orig_refuted.
+Print Assumptions C05_lr_driver_never_out_of_bounds.
+Print Assumptions C05_lr_parse_never_out_of_bounds.
+Print Assumptions C05_lr_driver_examples.
